@@ -180,6 +180,9 @@ def handle (f : File) (j : Json) : File × Json :=
         | "tags" => (f, ok (jKeys (srcRefHolders b .tag k)))
         | "multi_tags" => (f, ok (jKeys (srcRefHolders b .multiTag k)))
         | "objects" => (f, ok (jKeys (srcRefObjects b k)))
+        -- a Source has no referring_blocks / referring_sources attribute
+        | "blocks" => (f, err .attributeError)
+        | "sources" => (f, err .attributeError)
         | _ => (f, bad "C13: referring kind")
       | _ => (f, err .keyError)
   | _ => (f, bad "C13: unknown op")
